@@ -142,6 +142,23 @@ func (Prop) Gen(r *core.Rand, tier string) interface{} {
 			c.Faults = append(c.Faults, f)
 		}
 	}
+	if r.Chance(10) {
+		// waiters scenario: every client starts with the same text (not through Row()),
+		// its first preparation fails, nobody resets or closes: whoever waited for that
+		// preparation must be told
+		c.SessionMode = false
+		text := r.Intn(3)
+		for t := range c.Clients {
+			var prog []Op
+			for _, op := range c.Clients[t] {
+				if op.Kind != "reset" && op.Kind != "close" {
+					prog = append(prog, op)
+				}
+			}
+			c.Clients[t] = append([]Op{{Kind: "use", Text: text, Arg: r.Intn(4)}}, prog...)
+		}
+		c.Faults = []*simdrv.Fault{{ID: 1, Kind: "prepare", Type: "err", SQL: texts[text], Occ: 0}}
+	}
 	if tier == "thorough" && r.Chance(35) {
 		c.Bound = 1 + r.Intn(2)
 	}
@@ -974,6 +991,20 @@ func preparedOnce(c *Case, res *result) (string, string, string) {
 // failed with an injected error, must return that error (the entry in the map at that
 // moment is the preparer's: there is one entry per text).
 func failedPrepareReported(c *Case, res *result) (string, string, string) {
+	// Which entry a waiter waited for is only certain while there is one map with one
+	// entry per text that nobody replaces: no Reset or Close anywhere in the run (they
+	// swap the map, also between an entry's publication and its Prepare reaching the
+	// pool), no session siblings (their maps part at the first Reset), and a
+	// pool-bound failing entry (a transaction-bound one is replaced by the first
+	// caller outside a transaction).
+	if c.SessionMode {
+		return "", "", ""
+	}
+	for _, r := range res.recs {
+		if r.Kind == "reset" || r.Kind == "close" {
+			return "", "", ""
+		}
+	}
 	// every preparation that reached the pool, as an interval
 	type span struct {
 		task     int
@@ -1007,7 +1038,7 @@ func failedPrepareReported(c *Case, res *result) (string, string, string) {
 		case "prepare":
 			pr := open[ev.Task]
 			delete(open, ev.Task)
-			if pr == nil || ev.Err == "" {
+			if pr == nil || ev.Err == "" || pr.inTx {
 				continue
 			}
 			marker := ""
